@@ -758,13 +758,209 @@ Qed.
 Theorem holds_on_model h : cids_fresh [] h -> holds_from k0 (tmodel_steps tinit h) = true.
 Proof. intros Hfr. apply (holds_model h tinit k0 [] minv_init kinv_init Hfr). Qed.
 
+(* ---------- the close clause ---------- *)
+Record CInv (s : tstate) (st : cst) : Prop := {
+  ci1 : forall a x, In a (tallocs s) -> In x (ta_conns a) -> In (tc_id x, ta_client a) (c_la st);
+  ci2 : forall k, In k (c_lb st) -> exists a x, In a (tallocs s) /\ In x (ta_conns a) /\ tc_id x = k /\ tc_bound x = true /\ tc_data x <> None }.
+
+Lemma cinv_init : CInv tinit c0.
+Proof. constructor; cbn; [intros ? ? []|intros ? []]. Qed.
+
+Lemma nodup_client_eq l a b : NoDup (map ta_client l) -> In a l -> In b l -> ta_client a = ta_client b -> a = b.
+Proof.
+  intros Hnd Ha Hb E. pose proof (tfind_in_nodup l a Hnd Ha) as H1. pose proof (tfind_in_nodup l b Hnd Hb) as H2.
+  rewrite E in H1. congruence.
+Qed.
+
+(* the state does not change and nothing is bound or announced *)
+Lemma cinv_same s st la lb : CInv s st -> (forall p, In p (c_la st) -> In p la) -> (forall k, In k lb -> In k (c_lb st)) ->
+  CInv s {| c_la := la; c_lb := lb |}.
+Proof. intros [C1 C2] Hla Hlb. constructor; cbn; [intros a x Ha Hx; apply Hla; apply C1; assumption|intros k Hk; apply C2; apply Hlb; exact Hk]. Qed.
+
+(* one allocation is replaced by one with the same client, whose connections carry old ids (or announced ones), and in
+   which every old bound connection survives as a bound connection with data *)
+Lemma cinv_replace s st a a' la lb :
+  MInv s -> CInv s st -> In a (tallocs s) -> ta_client a' = ta_client a ->
+  (forall p, In p (c_la st) -> In p la) ->
+  (forall y, In y (ta_conns a') -> In (tc_id y, ta_client a) la) ->
+  (forall k, In k lb -> In k (c_lb st) \/
+      exists y, In y (ta_conns a') /\ tc_id y = k /\ tc_bound y = true /\ tc_data y <> None) ->
+  (forall x, In x (ta_conns a) -> tc_bound x = true -> tc_data x <> None -> In (tc_id x) lb ->
+      exists y, In y (ta_conns a') /\ tc_id y = tc_id x /\ tc_bound y = true /\ tc_data y <> None) ->
+  CInv {| tnow := tnow s; tallocs := treplace a' (tallocs s); tlocked := tlocked s |} {| c_la := la; c_lb := lb |}.
+Proof.
+  intros M [C1 C2] Ha Hc Hla Hnew Hlb Hkeep. pose proof (m_nd s M) as Hnd. constructor; cbn [tallocs c_la c_lb].
+  - intros b y Hb Hy. apply (treplace_in_iff a a' _ b Hnd Ha Hc) in Hb as [->|[Hb Hne]].
+    + rewrite Hc. apply Hnew. exact Hy.
+    + apply Hla. apply C1; assumption.
+  - intros k Hk. destruct (Hlb k Hk) as [Hold|(y & Hy & E1 & E2 & E3)].
+    + destruct (C2 k Hold) as (a0 & x0 & Ha0 & Hx0 & E1 & E2 & E3).
+      destruct (addr_eqb (ta_client a0) (ta_client a)) eqn:Ec.
+      * apply addr_eqb_eq in Ec. assert (a0 = a) by (eapply nodup_client_eq; eauto). subst a0.
+        destruct (Hkeep x0 Hx0 E2 E3) as (y & Hy & F1 & F2 & F3); [rewrite E1; exact Hk|].
+        exists a', y. split; [apply (treplace_in_iff a a' _ a' Hnd Ha Hc); left; reflexivity|]. repeat split; auto. congruence.
+      * exists a0, x0. split; [apply (treplace_in_iff a a' _ a0 Hnd Ha Hc); right; split; [exact Ha0|]|auto].
+        intros E. rewrite E, addr_eqb_refl in Ec. discriminate.
+    + exists a', y. split; [apply (treplace_in_iff a a' _ a' Hnd Ha Hc); left; reflexivity|auto].
+Qed.
+
+Ltac csame C := split; [reflexivity|apply (cinv_same _ _ _ _ C); cbn; intros; auto; try (right; assumption)].
+
+Lemma in_filter_sub {A} (f : A -> bool) l x : In x (filter f l) -> In x l.
+Proof. intros H. apply filter_In in H. tauto. Qed.
+
+Lemma cstep_ok s e s' acts st : MInv s -> CInv s st -> tstep s e = (s', acts) ->
+  fst (c_step st e acts) = true /\ CInv s' (snd (c_step st e acts)).
+Proof.
+  intros M C H. pose proof (m_lock s M) as Hlock. pose proof (m_nd s M) as Hnd. pose proof C as [C1 C2].
+  destruct e as [c u r|c i|c|c tid au peer vetoed dial_ok cid|relay p cid|dc tid au cid|cid fromc d|cid cside|dt].
+  - (* TAlloc *)
+    unfold tstep in H. destruct (tfind c (tallocs s)) as [a0|]; injection H as <- <-; [csame C|].
+    split; [reflexivity|]. constructor; cbn.
+    + intros a x Ha Hx. apply in_app_or in Ha as [Ha|[<-|[]]]; [apply C1; assumption|destruct Hx].
+    + intros k Hk. destruct (C2 k Hk) as (a & x & Ha & R). exists a, x. split; [apply in_or_app; left; exact Ha|exact R].
+  - (* TPerm *)
+    unfold tstep in H. destruct (tfind c (tallocs s)) as [a|] eqn:Hf; injection H as <- <-; [|csame C].
+    pose proof (tfind_some _ _ _ Hf) as [Ha Hc]. split; [reflexivity|]. cbn [c_step snd c_anns flat_map c_binds app].
+    apply (cinv_replace s st a _ _ _ M C Ha); cbn [ta_client ta_conns c_la c_lb].
+    + symmetry. exact Hc.
+    + auto.
+    + intros y Hy. apply C1; assumption.
+    + intros k Hk. left. exact Hk.
+    + intros x Hx Hb Hd _. exists x. auto.
+  - (* TEnd *)
+    unfold tstep in H. destruct (tfind c (tallocs s)) as [a|] eqn:Hf; injection H as <- <-.
+    + split; [reflexivity|]. constructor; cbn [tallocs c_step snd c_la c_lb].
+      * intros b y Hb Hy. apply in_or_app. right. apply C1; [eapply tremove_in; eauto|exact Hy].
+      * intros k Hk. apply filter_In in Hk as [Hk Hf']. destruct (C2 k Hk) as (a0 & x0 & Ha0 & Hx0 & E1 & E2 & E3).
+        exists a0, x0. split; [|auto]. apply tremove_other; [exact Ha0|]. intros Ec.
+        apply Bool.negb_true_iff in Hf'. apply Bool.not_true_iff_false in Hf'. apply Hf'.
+        apply existsb_exists. exists (k, c). split; [rewrite <- E1, <- Ec; apply C1; assumption|]. cbn. rewrite N.eqb_refl, addr_eqb_refl. reflexivity.
+    + split; [reflexivity|]. apply (cinv_same _ _ _ _ C); cbn; [auto|]. intros k Hk. eapply in_filter_sub; eauto.
+  - (* TConnect *)
+    unfold tstep in H.
+    destruct au as [u|]; [|injection H as <- <-; csame C].
+    destruct (tfind c (tallocs s)) as [a|] eqn:Hf; [|injection H as <- <-; csame C].
+    pose proof (tfind_some _ _ _ Hf) as [Ha Hc].
+    destruct (negb (ta_user a =? u)%N); [injection H as <- <-; csame C|].
+    destruct peer as [p|]; [|injection H as <- <-; csame C].
+    destruct vetoed; [injection H as <- <-; csame C|].
+    destruct (port p =? 0)%N; [injection H as <- <-; csame C|].
+    rewrite Hlock in H at 1.
+    destruct (has_conn_peer p a); [injection H as <- <-; csame C|].
+    destruct dial_ok; cbn [negb] in H; [|injection H as <- <-; csame C].
+    destruct (has_conn_id cid (tallocs s)) eqn:Hid; [injection H as <- <-; csame C|].
+    injection H as <- <-. subst c. split; [reflexivity|]. cbn [c_step snd c_anns flat_map c_binds app].
+    apply (cinv_replace s st a _ _ _ M C Ha); cbn [ta_client set_conns ta_conns c_la c_lb].
+    + reflexivity.
+    + intros q Hq. right. exact Hq.
+    + intros y Hy. apply in_app_or in Hy as [Hy|[<-|[]]]; [right; apply C1; assumption|left; reflexivity].
+    + intros k Hk. left. exact Hk.
+    + intros x Hx Hb Hd _. exists x. split; [apply in_or_app; left; exact Hx|auto].
+  - (* TPeerConn *)
+    unfold tstep in H.
+    destruct (tfind_relay relay (tallocs s)) as [a|] eqn:Hf; [|injection H as <- <-; csame C].
+    pose proof (tfind_relay_some _ _ _ Hf) as [Ha Hrl].
+    destruct (existsb (N.eqb (ip p)) (ta_perms a)) eqn:Hperm; cbn [negb] in H; [|injection H as <- <-; csame C].
+    rewrite Hlock in H at 1.
+    destruct (has_conn_id cid (tallocs s)) eqn:Hid; cbn [orb] in H; [injection H as <- <-; csame C|].
+    destruct (has_conn_peer p a); [injection H as <- <-; csame C|].
+    injection H as <- <-. split; [reflexivity|]. cbn [c_step snd c_anns flat_map c_binds app].
+    apply (cinv_replace s st a _ _ _ M C Ha); cbn [ta_client set_conns ta_conns c_la c_lb].
+    + reflexivity.
+    + intros q Hq. right. exact Hq.
+    + intros y Hy. apply in_app_or in Hy as [Hy|[<-|[]]]; [right; apply C1; assumption|left; reflexivity].
+    + intros k Hk. left. exact Hk.
+    + intros x Hx Hb Hd _. exists x. split; [apply in_or_app; left; exact Hx|auto].
+  - (* TConnBind *)
+    unfold tstep in H.
+    destruct au as [u|]; [|injection H as <- <-; csame C].
+    destruct cid as [k|]; [|injection H as <- <-; csame C].
+    rewrite Hlock in H at 1.
+    destruct (owner_of k (tallocs s)) as [[a x]|] eqn:Ho; [|injection H as <- <-; csame C].
+    pose proof (owner_of_in _ _ _ _ Ho) as (Ha & Hx & Hk).
+    destruct (negb (ta_user a =? u)%N || tc_bound x); [injection H as <- <-; csame C|].
+    injection H as <- <-. split; [reflexivity|]. cbn [c_step snd c_anns flat_map c_binds app].
+    apply (cinv_replace s st a _ _ _ M C Ha); cbn [ta_client set_conns ta_conns c_la c_lb].
+    + reflexivity.
+    + auto.
+    + intros y Hy. apply in_map_iff in Hy as (y0 & <- & Hy0). destruct (N.eqb_spec (tc_id y0) k) as [E|E]; cbn [tc_id].
+      * rewrite <- E. apply C1; assumption.
+      * apply C1; assumption.
+    + intros k' [<-|Hk']; [right|left; exact Hk'].
+      eexists. split; [apply in_map_iff; exists x; split; [reflexivity|exact Hx]|]. rewrite Hk, N.eqb_refl. cbn. repeat split; discriminate.
+    + intros x0 Hx0 Hb Hd _. eexists. split; [apply in_map_iff; exists x0; split; [reflexivity|exact Hx0]|].
+      destruct (N.eqb_spec (tc_id x0) k) as [E|E]; cbn; [repeat split; [congruence|discriminate]|auto].
+  - (* TData *)
+    unfold tstep in H. destruct (owner_of cid (tallocs s)) as [[a x]|]; [destruct (tc_bound x)|]; injection H as <- <-; csame C.
+  - (* TCloseSide *)
+    unfold tstep in H. destruct (owner_of cid (tallocs s)) as [[a x]|] eqn:Ho.
+    + pose proof (owner_of_in _ _ _ _ Ho) as (Ha & Hx & Hk).
+      destruct (tc_bound x) eqn:Hb; injection H as <- <-.
+      * split.
+        -- cbn [c_step fst]. destruct (existsb (N.eqb cid) (c_lb st)) eqn:Em; [|reflexivity].
+           apply existsb_exists in Em as (k & Hk' & E). apply N.eqb_eq in E. subst k.
+           destruct (C2 cid Hk') as (a0 & x0 & Ha0 & Hx0 & E1 & E2 & E3).
+           pose proof (owner_of_unique s a0 x0 M Ha0 Hx0) as Hu. rewrite E1, Ho in Hu. inversion Hu; subst a0 x0.
+           destruct cside; [reflexivity|]. destruct (tc_data x); [reflexivity|contradiction].
+        -- assert (Hrep : forall la, (forall q, In q (c_la st) -> In q la) ->
+             CInv {| tnow := tnow s; tallocs := treplace (drop_conn cid a) (tallocs s); tlocked := tlocked s |}
+                  {| c_la := la; c_lb := filter (fun x0 => negb (x0 =? cid)%N) (c_lb st) |}).
+           { intros la Hla. apply (cinv_replace s st a _ _ _ M C Ha); cbn [ta_client drop_conn set_conns ta_conns c_la c_lb].
+             ++ reflexivity.
+             ++ exact Hla.
+             ++ intros y Hy. apply filter_In in Hy as [Hy _]. apply Hla. apply C1; assumption.
+             ++ intros k Hk'. left. eapply in_filter_sub; eauto.
+             ++ intros x0 Hx0 Hb0 Hd0 Hin. apply filter_In in Hin as [_ Hne]. exists x0. split; [|auto].
+                apply filter_In. split; [exact Hx0|exact Hne]. }
+           cbn [c_step snd]. apply Hrep. intros q Hq. apply in_or_app. right. exact Hq.
+      * split.
+        -- cbn [c_step fst]. destruct (existsb (N.eqb cid) (c_lb st)) eqn:Em; [|reflexivity]. exfalso.
+           apply existsb_exists in Em as (k & Hk' & E). apply N.eqb_eq in E. subst k.
+           destruct (C2 cid Hk') as (a0 & x0 & Ha0 & Hx0 & E1 & E2 & E3).
+           pose proof (owner_of_unique s a0 x0 M Ha0 Hx0) as Hu. rewrite E1, Ho in Hu. inversion Hu; subst a0 x0. congruence.
+        -- apply (cinv_same _ _ _ _ C); cbn; [auto|]. intros k Hk'. eapply in_filter_sub; eauto.
+    + injection H as <- <-. split.
+      * cbn [c_step fst]. destruct (existsb (N.eqb cid) (c_lb st)) eqn:Em; [|reflexivity]. exfalso.
+        apply existsb_exists in Em as (k & Hk' & E). apply N.eqb_eq in E. subst k.
+        destruct (C2 cid Hk') as (a0 & x0 & Ha0 & Hx0 & E1 & E2 & E3).
+        apply (owner_of_exists cid (tallocs s) a0 x0 Ha0 Hx0 E1 Ho).
+      * apply (cinv_same _ _ _ _ C); cbn; [auto|]. intros k Hk'. eapply in_filter_sub; eauto.
+  - (* TTick *)
+    unfold tstep in H. injection H as <- <-. split; [reflexivity|].
+    cbn [c_step snd]. constructor; cbn [tallocs c_la c_lb].
+    + intros b y Hb Hy. apply in_map_iff in Hb as (a0 & <- & Ha0). cbn [ta_conns set_conns] in Hy. apply filter_In in Hy as [Hy _].
+      apply in_or_app. right. cbn [ta_client set_conns]. apply C1; assumption.
+    + intros k Hk. apply in_app_or in Hk as [Hk|Hk].
+      * exfalso. unfold c_binds in Hk. apply in_flat_map in Hk as (t & Ht & Hk). apply in_flat_map in Ht as (a0 & _ & Ht).
+        apply in_map_iff in Ht as (y & <- & _). destruct Hk.
+      * destruct (C2 k Hk) as (a0 & x0 & Ha0 & Hx0 & E1 & E2 & E3).
+        eexists. exists x0. split; [apply in_map_iff; exists a0; split; [reflexivity|exact Ha0]|]. split; [|auto].
+        cbn [ta_conns set_conns]. apply filter_In. split; [exact Hx0|]. rewrite E2. reflexivity.
+Qed.
+
+Lemma close_model : forall h s kst used st, MInv s -> KInv s kst used -> cids_fresh used h -> CInv s st ->
+  close_from st (tmodel_steps s h) = true.
+Proof.
+  induction h as [|e h IH]; intros s kst used st M K Hfr C; [reflexivity|]. cbn [tmodel_steps].
+  destruct (tstep s e) as [s' acts] eqn:Hs. cbn [close_from ts_ev ts_acts].
+  assert (Hfr1 : match ev_cid e with Some k => ~ In k used | None => True end).
+  { cbn [cids_fresh] in Hfr. destruct (ev_cid e); [apply Hfr|exact I]. }
+  assert (Hfr2 : cids_fresh (used' e used) h).
+  { cbn [cids_fresh] in Hfr. unfold used'. destruct (ev_cid e); [apply Hfr|exact Hfr]. }
+  destruct (kstep_ok s e s' acts kst used M K Hfr1 Hs) as (_ & M' & K').
+  destruct (cstep_ok s e s' acts st M C Hs) as [Hok C']. rewrite Hok. cbn [andb]. eapply IH; eauto.
+Qed.
+Theorem close_on_model h : cids_fresh [] h -> close_from c0 (tmodel_steps tinit h) = true.
+Proof. intros Hfr. apply (close_model h tinit k0 [] c0 minv_init kinv_init Hfr cinv_init). Qed.
+
 (* THE THEOREM: for every history of TCP-relay events whose connection ids are fresh, the whole C16 trace predicate
    (dup_from and holds_from) holds on the model's trace and the runner accepts the trace *)
 Theorem c16_run_on_model h : cids_fresh [] h -> C16Check.run (tmodel_case h) = (true, true).
 Proof.
   intros Hfr. unfold C16Check.run, tmodel_case. cbn [tc_steps].
   destruct (iso_dup_model h tinit [] [] tinit_inv2) as [_ Hd].
-  rewrite tagree_model, Hd. fold k0. rewrite (holds_on_model h Hfr). reflexivity.
+  rewrite tagree_model, Hd. fold k0. rewrite (holds_on_model h Hfr), (close_on_model h Hfr). reflexivity.
 Qed.
 
 (* ---------- C04's TCP predicate: the bind-ownership clause follows from C16's ---------- *)
